@@ -50,11 +50,14 @@ def check_batches(ctx: Ctx, framing: str, o: dict[str, Any]) -> None:
 
 
 def shard(ctx: Ctx) -> None:
-    jobs = [("plain", (1, 10)), ("noise", (1, 10)), ("plain", (1, 0)), ("noise", (1, 4))]
-    for i, (framing, api) in enumerate(jobs):
+    # (framing, API version, library debug logging on/off, API password configured or not): the login batch and every method under each
+    jobs = [("plain", (1, 10), False, "pw"), ("noise", (1, 10), False, "pw"), ("plain", (1, 0), True, "pw"), ("noise", (1, 4), True, "pw"),
+            ("plain", (1, 10), True, None), ("noise", (1, 10), True, "a much longer password: ü€ 0123456789" * 3), ("plain", (1, 9), False, None), ("noise", (1, 10), False, "")]
+    for i, (framing, api, debug, password) in enumerate(jobs):
         if not ctx.mine(i):
             continue
-        o = apisweep.run(framing, api)
+        o = apisweep.run(framing, api, debug=debug, password=password)
+        ctx.res.count(f"S/sessions/debug={debug}/password={'set' if password else 'unset'}")
         if o.get("error") or o.get("harness_errors"):
             ctx.res.inconclusive.append(f"api sweep {framing}: {o.get('error') or o['harness_errors'][0][-300:]}")
             continue
